@@ -606,8 +606,16 @@ func executeScript(
 	select {
 	case <-done:
 	case <-ctx.Done():
-		vm.Abort()
-		<-done
+		// Abort has no effect if it precedes the reset of the abort flag at
+		// the start of Run on the goroutine above; repeat it until Run returns.
+		for aborted := false; !aborted; {
+			vm.Abort()
+			select {
+			case <-done:
+				aborted = true
+			case <-time.After(time.Millisecond):
+			}
+		}
 		if err == nil {
 			err = ctx.Err()
 		}
